@@ -210,8 +210,12 @@ static const char *format_tostring(rf_wavheader_format_t format)
 
 char *rf_wavheader_tostring(rf_wavheader_t *wh)
 {
+	/* untrusted headers may declare a block alignment of zero */
+	unsigned int num_frames =
+	    wh->block_align ? wh->data_chunk_size / wh->block_align : 0;
+
 	return strdup_printf("WAVE file: %d samples in %s %dch %dHz",
-			wh->data_chunk_size / (wh->block_align),
+			num_frames,
 			format_tostring(rf_wavheader_get_format(wh)),
 			wh->num_channels, wh->sample_rate);
 
